@@ -306,6 +306,38 @@ func c14Portfolio_(spec c14Spec, res *core.CaseResult, verbose bool) {
 		}
 	}
 	c := wa.c
+	if spec.Seed%3 == 0 {
+		// in every third case the migration happens in the very block in which the earliest unbonding or
+		// redelegation entry matures (its time has come, the staking end blocker has not run yet)
+		var first time.Time
+		if ubds, err := c.App.StakingKeeper.GetUnbondingDelegations(c.Ctx, wa.src, 100); err == nil {
+			for _, u := range ubds {
+				for _, e := range u.Entries {
+					if first.IsZero() || e.CompletionTime.Before(first) {
+						first = e.CompletionTime
+					}
+				}
+			}
+		}
+		if reds, err := c.App.StakingKeeper.GetRedelegations(c.Ctx, wa.src, 100); err == nil {
+			for _, rd := range reds {
+				for _, e := range rd.Entries {
+					if first.IsZero() || e.CompletionTime.Before(first) {
+						first = e.CompletionTime
+					}
+				}
+			}
+		}
+		if dt := first.Sub(c.Time); !first.IsZero() && dt > 0 {
+			for _, w := range []*c14World{wa, wb} {
+				if _, err := w.c.EndBlock(dt); err != nil {
+					res.Inconclusive = err.Error()
+					return
+				}
+			}
+			res.Count("migrations_in_the_maturity_block", 1)
+		}
+	}
 	before := wa.portfolio(c.Ctx, wa.src)
 	tgtBefore := wa.portfolio(c.Ctx, wa.tgt.Acc())
 	totals := func(w *c14World) string {
